@@ -96,11 +96,22 @@ class Roles:
             else:
                 v.next[kind] = nb[0]
         # transition functions: crate-local unsafe fns on A called from the next bodies
+        # (... that reach a read of BASE: an unsafe one-line accessor wrapper such as `output_pos_unchecked` is no transition; it is
+        # inlined by the normal form like any other private helper)
+        def reads_base(tb, seen=()):
+            for b in lib.with_closures(tb):
+                for bi, c, t in b.calls():
+                    if c.local and c.adt == v.S and c.name == "base":
+                        return True
+                    if c.local and c.adt == v.A and c.body_path in lib.bodies and c.body_path not in seen and c.body_path != tb.path:
+                        if reads_base(lib.bodies[c.body_path], seen + (tb.path,)):
+                            return True
+            return False
         v.trans = {}        # body path -> body
         for kind, nb in v.next.items():
             for b in lib.with_closures(nb):
                 for bi, c, t in b.calls():
-                    if c.local and c.unsafe and c.adt == v.A and c.body_path in lib.bodies:
+                    if c.local and c.unsafe and c.adt == v.A and c.body_path in lib.bodies and reads_base(lib.bodies[c.body_path]):
                         v.trans[c.body_path] = lib.bodies[c.body_path]
         # child function(s): the LEAF local unsafe fns on A reached from the transition fns; intermediate private unsafe helpers
         # (a transition split in two) are neither roles nor anchors: the normal form inlines them into the transition
@@ -118,7 +129,9 @@ class Roles:
                 if pth not in seen_u:
                     seen_u.add(pth)
                     work.append(lib.bodies[pth])
-            if not outs and tb.path not in v.trans:
+            # (a leaf that never reads BASE is not a child lookup: a one-line accessor wrapper such as `fail_id_unchecked`, inlined)
+            if not outs and tb.path not in v.trans and any(c.local and c.adt == v.S and c.name == "base"
+                                                          for b in lib.with_closures(tb) for bi, c, t in b.calls()):
                 v.child[tb.path] = tb
         if v.next and not v.trans:
             ctx.missing(rule, "transition functions of " + v.A)
